@@ -107,13 +107,25 @@ def reachCounts (t : List (String × List (List (String × String)))) : List (St
   t.map (fun r => (r.1, r.2.map reachCount))
 
 /-- per case of `packetWorker`'s type switch and per control-flow path: the number of handler-reaching calls.
-0 only for INIT, CLOSE (closes the handler's objects, no handler call), a stale handle (EBADF), REALPATH without a
-custom resolver, and unsupported requests; REALPATH's six paths are {RealPathFileLister, legacy, none} × {err, ok}. -/
+0 only for INIT, CLOSE (closes the handler's objects, no handler call), a stale handle (EBADF), a request that does
+not fit the kind of its handle (second path of hasHandle), REALPATH without a custom resolver, and unsupported requests; REALPATH's six paths are {RealPathFileLister, legacy, none} × {err, ok}. -/
 def expectedReach : List (String × List Nat) :=
   [("sshFxInitPacket", [0]), ("sshFxpClosePacket", [0]), ("sshFxpRealpathPacket", [1, 1, 0, 1, 1, 0]),
    ("sshFxpOpendirPacket", [1, 1]), ("sshFxpOpenPacket", [1, 1]), ("sshFxpFstatPacket", [0, 1]),
    ("sshFxpFsetstatPacket", [0, 1]), ("sshFxpExtendedPacketPosixRename", [1]),
-   ("sshFxpExtendedPacketStatVFS", [1]), ("hasHandle", [0, 1]), ("hasPath", [1]), ("default", [0])]
+   ("sshFxpExtendedPacketStatVFS", [1]), ("hasHandle", [0, 0, 1]), ("hasPath", [1]), ("default", [0])]
+
+/-- the same before the handle-kind guard existed (`case hasHandle:` had only the EBADF and the call path). -/
+def expectedReachUnguarded : List (String × List Nat) :=
+  expectedReach.map fun r => if r.1 = "hasHandle" then (r.1, [0, 1]) else r
+
+/-- Request.servesPacket: READ is served by a read or read-write handle, WRITE by a write or read-write handle,
+READDIR by a directory handle; every other handle request (CLOSE, FSTAT, FSETSTAT are dispatched before) passes. -/
+def servesPacket : List (String × List String) :=
+  [("sshFxpReadPacket", ["Get", "Open"]), ("sshFxpWritePacket", ["Put", "Open"]), ("sshFxpReaddirPacket", ["List"])]
+
+/-- the requests that carry a raw attribute block -/
+def attrsTypes : List String := ["sshFxpOpenPacket", "sshFxpSetstatPacket", "sshFxpFsetstatPacket"]
 
 /-- methods of the handler interfaces / of the objects handlers return. -/
 def handlerMethods : List String :=
